@@ -49,7 +49,7 @@ import math
 from .py2gallina import Unsupported
 
 Z, F, B, TD, DUR, LZ = "Z", "sf", "bool", "td", "dur", "list Z"
-PTD, VALUE, OPRES = "ptd", "value", "opres"
+PTD, VALUE, OPRES, NUM = "ptd", "value", "opres", "num"
 SLOTS = ["days", "seconds", "microseconds", "milliseconds", "minutes", "hours", "weeks", "years", "months"]
 PTD_ATTRS = {"days": "ptd_days", "seconds": "ptd_seconds", "microseconds": "ptd_micro"}
 EXN = {"ValueError": "E_ValueError", "TypeError": "E_TypeError", "OverflowError": "E_OverflowError",
@@ -97,9 +97,17 @@ class FloatTr:
     def __init__(self, where, consts, fields, ctor_order, cache_fields, methods, funcs=None):
         self.where, self.consts, self.fields, self.ctor_order = where, consts, fields, ctor_order
         self.cache_fields, self.methods = cache_fields, methods
+        self.cur_env = {}
         self.funcs = funcs or {}       # (module function name, argument types) -> (coq name, return type, monadic?)
         self.opres = False             # wrap the returned value into `opres`
         self.sig_optional = False      # a _signature with a non-integer value is recorded as [] (float-constructed Duration)
+        self.state_merge = False       # allow the general if-merge (variables threaded through the result monad)
+        self.exn = dict(EXN)
+        self.live = [set()]            # variables read after the construct being translated (for the general if-merge)
+        self.konts = []                # what a block does when its statements run out inside a merged if
+        self.names = {"sf_of_Z": "sf_of_Z", "py_float_of_int": "py_float_of_int", "py_int_truediv": "py_int_truediv",
+                      "py_float_mod": "py_float_mod", "py_float_divmod": "py_float_divmod", "py_int_trunc": "py_int_trunc",
+                      "py_round_half_even": "py_round_half_even"}
         self.n = 0
         self.used_bind = False
         self.pre = []
@@ -140,8 +148,8 @@ class FloatTr:
         if v.ty != Z:
             self.fail(node, f"cannot convert {v.ty} to float")
         if v.known is not None and abs(v.known) < LIM53:
-            return V(f"(sf_of_Z {atom(v.text)})", F, float(v.known))
-        return V(self.bind(node, f"py_float_of_int {atom(v.text)}"), F)
+            return V(f"({self.names['sf_of_Z']} {atom(v.text)})", F, float(v.known))
+        return V(self.bind(node, f"{self.names['py_float_of_int']} {atom(v.text)}"), F)
 
     # ------------------------------------------------------------------ expressions
     def expr(self, e, env, st) -> V:
@@ -238,7 +246,7 @@ class FloatTr:
                     return V(f"({a.text} / {b.text})", Z, a.known // b.known if both else None)
                 return V(f"({a.text} mod {b.text})", Z, a.known % b.known if both else None)
             if isinstance(op, ast.Div):
-                return V(self.bind(e, f"py_int_truediv {atom(a.text)} {atom(b.text)}"), F)
+                return V(self.bind(e, f"{self.names['py_int_truediv']} {atom(a.text)} {atom(b.text)}"), F)
             self.fail(e, "integer operator")
         if F in (a.ty, b.ty) and a.ty in (Z, F) and b.ty in (Z, F):
             divisor_known = b.known
@@ -255,13 +263,27 @@ class FloatTr:
                     self.fail(e, "float division by something that is not statically a non-zero constant (ZeroDivisionError not modelled)")
                 return V(f"(fdiv {atom(fa.text)} {atom(fb.text)})", F)
             if isinstance(op, ast.Mod):
-                return V(self.bind(e, f"py_float_mod {atom(fa.text)} {atom(fb.text)}"), F)
+                return V(self.bind(e, f"{self.names['py_float_mod']} {atom(fa.text)} {atom(fb.text)}"), F)
+            if isinstance(op, ast.FloorDiv):
+                t = self.bind(e, f"{self.names['py_float_divmod']} {atom(fa.text)} {atom(fb.text)}")
+                return V(f"(fst {t})", F)
             self.fail(e, "float operator")
+        if a.ty == NUM and isinstance(op, ast.Add) and b.ty == Z:
+            return V(f"(num_add_int {atom(a.text)} {atom(b.text)})", NUM)
+        if a.ty == NUM and isinstance(op, ast.Add) and b.ty == F:
+            return V(f"(num_add_float {atom(a.text)} {atom(b.text)})", NUM)
         self.fail(e, f"operand types {a.ty} / {b.ty}")
 
     def compare(self, e, env, st) -> V:
-        if len(e.ops) != 1:
-            self.fail(e, "chained comparison")
+        if len(e.ops) > 1:
+            n = len(self.pre)
+            parts, left = [], e.left
+            for op, right in zip(e.ops, e.comparators):
+                parts.append(self.compare(ast.copy_location(ast.Compare(left=left, ops=[op], comparators=[right]), e), env, st))
+                left = right
+            if len(self.pre) != n or any(not isinstance(x, (ast.Name, ast.Constant)) for x in [e.left] + e.comparators):
+                self.fail(e, "chained comparison of anything but variables / constants")
+            return V("(" + " && ".join(atom(p.text) for p in parts) + ")", B)
         a = self.expr(e.left, env, st)
         b = self.expr(e.comparators[0], env, st)
         op = e.ops[0]
@@ -335,7 +357,7 @@ class FloatTr:
                 elif a.ty == Z:
                     return a
                 elif a.ty == F:
-                    return V(self.bind(e, ("py_int_trunc " if f.id == "int" else "py_round_half_even ") + atom(a.text)), Z)
+                    return V(self.bind(e, (self.names["py_int_trunc"] if f.id == "int" else self.names["py_round_half_even"]) + " " + atom(a.text)), Z)
                 self.fail(e, f"{f.id}() of a {a.ty}")
             if f.id == "divmod" and len(e.args) == 2 and not e.keywords:
                 a = self.expr(e.args[0], env, st)
@@ -349,7 +371,7 @@ class FloatTr:
                 if F in (a.ty, b.ty) and a.ty in (Z, F) and b.ty in (Z, F):
                     fa = self.to_float(e.args[0], a)
                     fb = self.to_float(e.args[1], b)
-                    return V(self.bind(e, f"py_float_divmod {atom(fa.text)} {atom(fb.text)}"), (F, F))
+                    return V(self.bind(e, f"{self.names['py_float_divmod']} {atom(fa.text)} {atom(fb.text)}"), (F, F))
                 self.fail(e, "divmod operand types")
             if f.id == "timedelta":
                 return self.td_ctor(e, e.args, env, st)
@@ -385,7 +407,9 @@ class FloatTr:
 
     # ------------------------------------------------------------------ static tests
     def static_bool(self, t):
-        """True / False when the test is decided by the declared parameter types, else None"""
+        """True / False when the test is decided by the declared parameter types (or a boolean variable whose constant value is known), else None"""
+        if isinstance(t, ast.Name) and t.id in self.cur_env and self.cur_env[t.id].ty == B and self.cur_env[t.id].known is not None:
+            return self.cur_env[t.id].known
         if isinstance(t, ast.UnaryOp) and isinstance(t.op, ast.Not):
             r = self.static_bool(t.operand)
             return None if r is None else (not r)
@@ -421,7 +445,7 @@ class FloatTr:
         if isinstance(target, ast.Name):
             cn = "v_" + target.id
             env2 = dict(env)
-            env2[target.id] = V(cn, v.ty)
+            env2[target.id] = V(cn, v.ty, v.known if v.ty not in (Z, F) else None)
             return f"let {cn} := {v.text} in\n  ", env2, st
         if isinstance(target, ast.Attribute) and isinstance(target.value, ast.Name) and target.value.id == "self":
             a = target.attr
@@ -440,7 +464,19 @@ class FloatTr:
 
     def block(self, stmts, env, st) -> str:
         if not stmts:
+            if self.konts:
+                k, saved = self.konts[-1], self.konts
+                self.konts = self.konts[:-1]
+                try:
+                    return k(env, st)
+                finally:
+                    self.konts = saved
             raise Unsupported(f"{self.where}: control reaches the end of the function without a return")
+        if isinstance(stmts[0], ast.AnnAssign):
+            if stmts[0].value is None:
+                return self.block(stmts[1:], env, st)
+            s2 = ast.fix_missing_locations(ast.Assign(targets=[stmts[0].target], value=stmts[0].value, lineno=stmts[0].lineno))
+            return self.block([s2] + stmts[1:], env, st)
         s, rest = stmts[0], stmts[1:]
         if isinstance(s, ast.Expr) and isinstance(s.value, ast.Constant) and isinstance(s.value.value, str):
             return self.block(rest, env, st)
@@ -463,6 +499,16 @@ class FloatTr:
                     const_divmod = a.ty == Z and b.ty == Z and b.known is not None and b.known != 0
                     if not const_divmod:
                         self.n, self.pre = n0, pre0
+                if not const_divmod and isinstance(c, ast.Tuple) and len(c.elts) == len(tgt.elts) and all(isinstance(x, ast.Name) for x in tgt.elts):
+                    vs = [self.expr(x, env, st) for x in c.elts]
+                    pre = self.take_pre()
+                    env2, lets = dict(env), ""
+                    for i, v in enumerate(vs):
+                        lets += f"let u{i}_{self.n} := {v.text} in\n  "
+                    for i, (x, v) in enumerate(zip(tgt.elts, vs)):
+                        l, env2, st = self.store(x, V(f"u{i}_{self.n}", v.ty), env2, st)
+                        lets += l
+                    return self.wrap(pre, lets + self.block(rest, env2, st))
                 if not const_divmod:
                     v = self.expr(c, env, st)
                     if not (isinstance(v.ty, tuple) and len(v.ty) == len(tgt.elts) and all(isinstance(x, ast.Name) for x in tgt.elts)):
@@ -489,10 +535,10 @@ class FloatTr:
         if isinstance(s, ast.Raise):
             x = s.exc
             name = x.func.id if isinstance(x, ast.Call) and isinstance(x.func, ast.Name) else x.id if isinstance(x, ast.Name) else None
-            if name not in EXN:
+            if name not in self.exn:
                 self.fail(s, "raise")
             self.used_bind = True
-            return f"Raise {EXN[name]}"
+            return f"Raise {self.exn[name]}"
         if isinstance(s, ast.If):
             return self.if_(s, rest, env, st)
         self.fail(s, "statement form")
@@ -557,6 +603,7 @@ class FloatTr:
         return self.wrap(pre, v.text if self.pure else f"Ok {atom(v.text)}")
 
     def if_(self, s, rest, env, st):
+        self.cur_env = env
         sb = self.static_bool(s.test)
         if sb is True:
             return self.block(s.body + ([] if self.returns(s.body) else rest), env, st)
@@ -569,15 +616,34 @@ class FloatTr:
                 and isinstance(t.left, ast.Attribute) and isinstance(t.left.value, ast.Name) and t.left.value.id == "self"
                 and t.left.attr in self.cache_fields and t.left.attr not in st and self.self_kind == DUR and not s.orelse):
             return self.block(s.body + rest, env, st)
-        c = self.expr(t, env, st)
-        if c.ty != B:
-            self.fail(s, "condition that is not a comparison (truthiness is not in the fragment)")
+        sel, env_t, env_e = self.cond(t, env, st)
         pre = self.take_pre()
         if self.returns(s.body):
-            a = self.block(s.body, env, st)
-            b = self.block(s.orelse + rest, env, st)
-            return self.wrap(pre, f"if {c.text} then ({a}) else ({b})")
-        # merge: both branches are sequences of pure assignments
+            a = self.block(s.body, env_t, st)
+            b = self.block(s.orelse + rest, env_e, st)
+            return self.wrap(pre, sel(a, b))
+        if self.returns(s.orelse) and s.orelse:
+            a = self.block(s.body + rest, env_t, st)
+            b = self.block(s.orelse, env_e, st)
+            return self.wrap(pre, sel(a, b))
+        saved = (self.n, list(self.pre), self.used_bind)
+        try:
+            return self.wrap(pre, self.simple_merge(s, sel, rest, env, st))
+        except Unsupported:
+            if not self.state_merge:
+                raise
+            self.n, self.pre, self.used_bind = saved[0], saved[1], saved[2]
+        return self.wrap(pre, self.tuple_merge(s, sel, rest, env, st, env_t, env_e))
+
+    def cond(self, t, env, st):
+        """-> (select(textA, textB) -> text, env in the then branch, env in the else branch)"""
+        c = self.expr(t, env, st)
+        if c.ty != B:
+            self.fail(t, "condition that is not a comparison (truthiness is not in the fragment)")
+        return (lambda a, b: f"if {c.text} then ({a}) else ({b})"), env, env
+
+    def simple_merge(self, s, sel, rest, env, st):
+        """`if c: x = e` (one variable / field, pure): let x := if c then e else x"""
         def desugar(stmts):
             out = []
             for x in stmts:
@@ -617,8 +683,113 @@ class FloatTr:
         tb, tyb = branch(s.orelse)
         if tya != tyb or tya != cur.ty:
             self.fail(s, "branches assign different types")
-        l, env2, st2 = self.store(tg, V(f"(if {c.text} then {atom(ta)} else {atom(tb)})", tya), env, st)
-        return self.wrap(pre, l + self.block(rest, env2, st2))
+        l, env2, st2 = self.store(tg, V("(" + sel(atom(ta), atom(tb)).replace("(" + atom(ta) + ")", atom(ta)).replace("(" + atom(tb) + ")", atom(tb)) + ")", tya), env, st)
+        return l + self.block(rest, env2, st2)
+
+    @staticmethod
+    def assigned(stmts):
+        out = []
+        for x in stmts:
+            tgts = []
+            if isinstance(x, ast.Assign):
+                for t in x.targets:
+                    tgts += t.elts if isinstance(t, ast.Tuple) else [t]
+            elif isinstance(x, (ast.AugAssign, ast.AnnAssign)) and getattr(x, "value", None) is not None:
+                tgts = [x.target]
+            elif isinstance(x, ast.If):
+                for k in FloatTr.assigned(x.body) + FloatTr.assigned(x.orelse):
+                    if k not in out:
+                        out.append(k)
+            for t in tgts:
+                if isinstance(t, ast.Name) and t.id not in out:
+                    out.append(t.id)
+                elif not isinstance(t, ast.Name):
+                    raise Unsupported("general if-merge: assignment to something that is not a plain variable")
+        return out
+
+    @staticmethod
+    def unify(a, b):
+        if a == b:
+            return a
+        if {a, b} <= {Z, F, NUM}:
+            return NUM
+        raise Unsupported(f"a variable holds {a} on one path and {b} on the other")
+
+    @staticmethod
+    def coerce(v, ty):
+        if v.ty == ty:
+            return v.text
+        if ty == NUM and v.ty == Z:
+            return f"(NInt {atom(v.text)})"
+        if ty == NUM and v.ty == F:
+            return f"(NFloat {atom(v.text)})"
+        raise Unsupported(f"cannot coerce {v.ty} to {ty}")
+
+    def tuple_merge(self, s, sel, rest, env, st, env_t, env_e):
+        """the general case: the variables assigned in the if are threaded through the result monad:
+           bind (if c then <body ; Ok (w1, .., wn)> else <orelse ; Ok (w1, .., wn)>) (fun '(w1, .., wn) => rest)"""
+        for n in ast.walk(ast.Module(body=s.body + s.orelse, type_ignores=[])):
+            if isinstance(n, ast.Return):
+                self.fail(s, "a return on some but not all paths of an if")
+        live_after = self.loads(rest) | self.live[-1]
+        W = [k for k in self.assigned(s.body + s.orelse) if k in env and k in live_after]
+        self.live.append(live_after)
+        try:
+            return self.tuple_merge2(s, sel, rest, env, st, env_t, env_e, W)
+        finally:
+            self.live.pop()
+
+    @staticmethod
+    def loads(stmts):
+        return {n.id for x in stmts for n in ast.walk(x) if isinstance(n, ast.Name) and isinstance(n.ctx, ast.Load)}
+
+    def tuple_merge2(self, s, sel, rest, env, st, env_t, env_e, W):
+        tys = {}
+
+        def finish(types_only):
+            def k(env2, st2):
+                vals = [env2[w] for w in W]
+                if types_only is not None:
+                    types_only.append([v.ty for v in vals])
+                    return "Ok tt"
+                if not W:
+                    return "Ok tt"
+                parts = [self.coerce(v, tys[w]) for v, w in zip(vals, W)]
+                return "Ok " + (atom(parts[0]) if len(parts) == 1 else "(" + ", ".join(parts) + ")")
+            return k
+
+        # dry run for the types
+        saved = (self.n, list(self.pre), self.used_bind)
+        seen = []
+        self.konts.append(finish(seen))
+        try:
+            self.block(s.body, env_t, st)
+            self.block(s.orelse, env_e, st)
+        finally:
+            self.konts.pop()
+        self.n, self.pre, self.used_bind = saved
+        for i, w in enumerate(W):
+            ty = seen[0][i]
+            for row in seen[1:]:
+                ty = self.unify(ty, row[i])
+            tys[w] = ty
+        self.used_bind = True
+        self.konts.append(finish(None))
+        try:
+            a = self.block(s.body, env_t, st)
+            b = self.block(s.orelse, env_e, st)
+        finally:
+            self.konts.pop()
+        env2 = dict(env)
+        for w in W:
+            env2[w] = V("v_" + w, tys[w])
+        pat = "_" if not W else ("v_" + W[0] if len(W) == 1 else "'(" + ", ".join("v_" + w for w in W) + ")")
+        top = self.live.pop()
+        try:
+            r = self.block(rest, env2, st)
+        finally:
+            self.live.append(top)
+        return f"bind ({sel(a, b)}) (fun {pat} =>\n  {r})"
 
     # ------------------------------------------------------------------ entry points
     def function(self, fn: ast.FunctionDef, coq_name, param_types, self_kind, is_abs=False, fixed=None, opres=False):
